@@ -37,7 +37,9 @@ func main() {
 			if wellFormed && rng.Intn(3) > 0 && a > b {
 				a, b = b, a // mostly acyclic
 			}
-			if edges[[2]int{a, b}] && wellFormed {
+			if edges[[2]int{a, b}] {
+				// re-adding an edge gives two children the same rank; which one survives in
+				// Toposort's children array depends on map order (outside the property: distinct edges)
 				continue
 			}
 			edges[[2]int{a, b}] = true
